@@ -89,8 +89,8 @@ func ruleSetupFamily(c *Ctx, rule string, fns []*ssa.Function, v4 map[*ssa.Funct
 				}
 			}
 		}
-		if !has {
-			continue
+		if !has || inlinedEverywhere(c, fn) {
+			continue // helpers explored inline are judged in their callers, where the checks may follow the call
 		}
 		c.R.Functions[shortFn(fn)] = true
 		ex := NewExplorer(c.P, c.Pure, fn)
